@@ -548,13 +548,18 @@ func (e *Engine) enterBlock(fr *Frame, st *State, b, prev *ssa.BasicBlock) (bool
 	assign()
 	if st.inLoop[key] {
 		// back edge: invariant must be preserved; path ends
+		e.checkAutoInv(fr, st, ord, e.autoInv(fr, st, b, phis, li.blocks[b.Index]), "keep")
 		e.checkInvariant(fr, st, ord, inv, "keep")
 		return false, true
 	}
+	e.checkAutoInv(fr, st, ord, e.autoInv(fr, st, b, phis, li.blocks[b.Index]), "init")
 	e.checkInvariant(fr, st, ord, inv, "init")
 	// havoc loop targets, assume invariant, continue from the head
 	e.havocLoop(fr, st, b, phis, li.blocks[b.Index])
 	st.inLoop[key] = true
+	for _, t := range e.autoInv(fr, st, b, phis, li.blocks[b.Index]) {
+		st.assume(t)
+	}
 	e.assumeInvariant(fr, st, ord, inv)
 	return true, false
 }
